@@ -184,6 +184,18 @@ Proof.
   - apply (IH all u u' _ _ (conj Hl Hm) H).
 Qed.
 
+Lemma filter_perm {A} (f : A -> bool) l l' : Permutation l l' -> Permutation (filter f l) (filter f l').
+Proof.
+  induction 1 as [|x l l' _ IH|x y l|l l' l'' _ IH1 _ IH2]; cbn [filter].
+  - constructor.
+  - destruct (f x); [constructor|]; exact IH.
+  - destruct (f x), (f y); try constructor; apply Permutation_refl.
+  - eapply Permutation_trans; eassumption.
+Qed.
+
+Lemma gvar_names_perm g g' : Permutation g g' -> Permutation (gvar_names g) (gvar_names g').
+Proof. intros H. unfold gvar_names. apply Permutation_map, filter_perm, H. Qed.
+
 (* the whole name map: the same name for every local variable, the same (symbol, name) pairs for global symbols *)
 Theorem build_order_irrelevant scopes scopes' locals g ls :
   Permutation scopes scopes' -> build reserved scopes locals = Some (g, ls) ->
@@ -192,9 +204,10 @@ Proof.
   intros Hp H. unfold build in *.
   destruct (assign_scopes reserved scopes) as [[gl gens]|] eqn:E; [|discriminate].
   destruct (assign_scopes_order_irrelevant _ _ _ _ Hp E) as (g' & gens' & E' & P1 & P2). rewrite E'.
-  destruct (assign_locals locals (map snd locals) (gens ++ reserved) []) as [res|] eqn:L; [|discriminate].
+  destruct (assign_locals locals (map snd locals) (gvar_names gl ++ gens ++ reserved) []) as [res|] eqn:L; [|discriminate].
   inversion H; subst g ls.
-  rewrite (assign_locals_equiv locals _ (gens ++ reserved) (gens' ++ reserved) [] res); [|apply equiv_perm, Permutation_app_tail, P2|exact L].
+  rewrite (assign_locals_equiv locals _ (gvar_names gl ++ gens ++ reserved) (gvar_names g' ++ gens' ++ reserved) [] res);
+    [|apply equiv_perm, Permutation_app; [apply gvar_names_perm, P1|apply Permutation_app_tail, P2]|exact L].
   exists g'. split; [reflexivity | exact P1].
 Qed.
 
